@@ -65,6 +65,8 @@ struct Ex<'a> {
     ret: Option<Val>,
     release_plus: bool,
     consts: HashMap<String, u64>, // `const NAME: usize = LIT;` items of the translated files
+    min_choice: Option<u64>, // the value assumed for `x.min(c)` of a data-dependent x (one instance per value)
+    assume: Vec<String>,     // the assumptions made that way, as Lean propositions
     opaque: Vec<String>, // helpers that are applied (as their generated `Gen.*` definition) instead of inlined
 }
 
@@ -76,7 +78,7 @@ fn lit_u64(l: &syn::LitInt) -> R<u64> {
 
 impl<'a> Ex<'a> {
     fn new(fns: &'a HashMap<String, syn::ImplItemFn>) -> Self {
-        Ex { env: HashMap::new(), lets: Vec::new(), fresh: 0, fns, depth: 0, ret: None, release_plus: false, consts: HashMap::new(), opaque: Vec::new() }
+        Ex { env: HashMap::new(), lets: Vec::new(), fresh: 0, fns, depth: 0, ret: None, release_plus: false, consts: HashMap::new(), min_choice: None, assume: Vec::new(), opaque: Vec::new() }
     }
     fn bind(&mut self, e: String) -> Val {
         self.fresh += 1;
@@ -411,6 +413,9 @@ impl<'a> Ex<'a> {
                 if let Some(c) = self.consts.get(&id) {
                     return Ok(Val::N(*c));
                 }
+                if id == "None" {
+                    return Ok(Val::Opt(None));
+                }
                 Err(format!("unknown variable {id}"))
             }
             Expr::Range(r) => {
@@ -554,7 +559,7 @@ impl<'a> Ex<'a> {
                 }
                 self.call_with_self(&fname, Some(&prefix), args)
             }
-            Expr::MethodCall(m) if matches!(m.method.to_string().as_str(), "len" | "is_empty" | "iter" | "iter_mut" | "zip" | "chunks_exact" | "clone_from_slice" | "copy_from_slice" | "get" | "get_mut" | "unwrap_or" | "unwrap_or_default" | "as_slice" | "split_at" | "split_at_mut" | "to_le_bytes") => {
+            Expr::MethodCall(m) if matches!(m.method.to_string().as_str(), "len" | "is_empty" | "iter" | "iter_mut" | "zip" | "chunks_exact" | "clone_from_slice" | "copy_from_slice" | "get" | "get_mut" | "unwrap_or" | "unwrap_or_default" | "as_slice" | "split_at" | "split_at_mut" | "to_le_bytes" | "min") => {
                 let name = m.method.to_string();
                 match name.as_str() {
                     "len" | "is_empty" => {
@@ -564,6 +569,22 @@ impl<'a> Ex<'a> {
                     "as_slice" => {
                         let (k, a, n) = self.sliceable(&m.receiver)?;
                         Ok(Val::Slice(k, a, n))
+                    }
+                    "min" => {
+                        let l = self.eval(&m.receiver)?;
+                        let r = self.eval(m.args.first().ok_or("min arg")?)?;
+                        match (l, r) {
+                            (Val::N(a), Val::N(b)) => Ok(Val::N(a.min(b))),
+                            (Val::W32(x), Val::N(c)) => {
+                                let k = self.min_choice.ok_or("min of a data-dependent value")?;
+                                if k > c {
+                                    return Err("assumed minimum exceeds the bound".into());
+                                }
+                                self.assume.push(format!("min {x}.toNat {c} = {k}"));
+                                Ok(Val::N(k))
+                            }
+                            _ => Err("min".into()),
+                        }
                     }
                     "split_at" | "split_at_mut" => {
                         let (k, a, n) = self.sliceable(&m.receiver)?;
@@ -708,6 +729,7 @@ impl<'a> Ex<'a> {
                     },
                     "usize" => match v {
                         Val::N(n) => Ok(Val::N(n)),
+                        Val::W32(x) => Ok(Val::W32(x)),     // u32 -> usize is value preserving on every supported target
                         _ => Err("cast of a non-literal to usize".into()),
                     },
                     _ => Err(format!("cast to {ty}")),
@@ -736,6 +758,19 @@ impl<'a> Ex<'a> {
                             "u8" => Ok(Val::N(1)),
                             _ => Err(format!("size_of::<{ty}>")),
                         };
+                    }
+                    if segs == ["Some"] && c.args.len() == 1 {
+                        let v = self.eval(&c.args[0])?;
+                        return Ok(Val::Opt(Some(Box::new(v))));
+                    }
+                    if segs == ["u32", "from_le_bytes"] && c.args.len() == 1 {
+                        let v = self.eval(&c.args[0])?;
+                        let Val::Arr(a) = v else { return Err("from_le_bytes of a non-array".into()) };
+                        if a.len() != 4 {
+                            return Err("from_le_bytes arity".into());
+                        }
+                        let bs: Vec<String> = a.iter().map(|x| self.byte(x)).collect::<R<_>>()?;
+                        return Ok(Val::W32(format!("(HH.le32 [{}])", bs.join(", "))));
                     }
                     if segs == ["u64", "from_le_bytes"] && c.args.len() == 1 {
                         let v = self.eval(&c.args[0])?;
@@ -876,6 +911,20 @@ impl<'a> Ex<'a> {
         match s {
             Stmt::Local(l) => {
                 let init = l.init.as_ref().ok_or("let without init")?;
+                if let (Expr::Call(c), Pat::Ident(pi)) = (&*init.expr, match &l.pat { Pat::Type(t) => &*t.pat, p => p }) {
+                    if let Expr::Path(p) = &*c.func {
+                        let segs: Vec<String> = p.path.segments.iter().map(|s| s.ident.to_string()).collect();
+                        if segs == ["HashPacket", "default"] && c.args.is_empty() {
+                            // `#[derive(Default)]`: a zeroed buffer and index 0
+                            let n = self.consts.get("PACKET_SIZE").copied().ok_or("PACKET_SIZE")? as usize;
+                            let name = pi.ident.to_string();
+                            self.env.insert(format!("{name}.buf"), Val::Arr(vec![Val::N(0); n]));
+                            self.env.insert(format!("{name}.buf_index"), Val::N(0));
+                            self.env.insert(name, Val::Unit);
+                            return Ok(Val::Unit);
+                        }
+                    }
+                }
                 let v = self.eval(&init.expr)?;
                 let mut pat = &l.pat;
                 if let Pat::Type(t) = pat {
@@ -941,6 +990,13 @@ impl<'a> Ex<'a> {
         let name = m.method.to_string();
         match &*m.receiver {
             Expr::Path(p) if p.path.is_ident("self") && self.fns.contains_key(&name) => Some(("self".into(), name)),
+            Expr::Path(p) if p.path.get_ident().map(|i| self.env.contains_key(&format!("{i}.buf_index"))).unwrap_or(false) => {
+                let key = format!("HashPacket::{name}");
+                if self.fns.contains_key(&key) {
+                    return Some((p.path.get_ident().unwrap().to_string(), key));
+                }
+                None
+            }
             Expr::Field(f) => {
                 if let (Expr::Path(p), syn::Member::Named(id)) = (&*f.base, &f.member) {
                     let key = format!("HashPacket::{name}");
@@ -1288,6 +1344,35 @@ fn main() {
             let bs: Vec<String> = a.iter().map(|x| ex.byte(x)).collect::<R<_>>()?;
             let _ = write!(d, "def checkpoint{n} (s : St){} : List (BitVec 8) :=\n{}  [{}]\n", binders(32), ex.lets_text(), bs.join(", "));
             let _ = write!(t, "theorem checkpoint{n}_eq (s : St){} : checkpoint{n} s {} = P.checkpoint ⟨s, ⟨{}, {n}⟩⟩ := rfl\n", binders(32), bvars(32).join(" "), blist(32));
+        }
+        Ok((d, t))
+    })());
+
+    // from_checkpoint(data) for 164 symbolic bytes: one instance per value of the clamped pending count
+    emit("from_checkpoint", (|| {
+        let f = fns.get("from_checkpoint").ok_or("missing")?.clone();
+        let p = f.sig.inputs.iter().find_map(|a| match a { syn::FnArg::Typed(t) => match &*t.pat { Pat::Ident(i) => Some(i.ident.to_string()), _ => None }, _ => None }).ok_or("param")?;
+        let mut d = String::new();
+        let mut t = String::new();
+        let big = blist(164);
+        for k in 0..=31u64 {
+            let mut ex = Ex::new(&fns);
+            ex.consts = consts.clone();
+            ex.min_choice = Some(k);
+            ex.env.insert(p.clone(), Val::Arr(bvars(164).into_iter().map(Val::B).collect()));
+            let r = ex.block(&f.block).map_err(|e| format!("count {k}: {e}"))?;
+            let Val::Tup(lanes) = r else { return Err("result shape".into()) };
+            let parts: Vec<String> = lanes.iter().map(|v| v4_text(&ex, &match v { Val::Ref(k) => ex.env.get(k).cloned().unwrap_or(Val::Unit), o => o.clone() })).collect::<R<_>>()?;
+            let Some(Val::Arr(buf)) = ex.env.get("buffer.buf").cloned() else { return Err("the restored packet is not the local `buffer`".into()) };
+            let Some(Val::N(idx)) = ex.env.get("buffer.buf_index").cloned() else { return Err("restored index".into()) };
+            let bs: Vec<String> = buf.iter().map(|x| ex.byte(x)).collect::<R<_>>()?;
+            if ex.assume.len() != 1 {
+                return Err("expected exactly one data-dependent clamp".into());
+            }
+            let hyp = ex.assume[0].clone();
+            let lhs_min = hyp.rsplit_once(" = ").map(|x| x.0.to_string()).unwrap_or_default();
+            let _ = write!(d, "def fromCheckpoint{k}{} : P.State :=\n{}  ⟨⟨{}, {}, {}, {}⟩, ⟨[{}], {idx}⟩⟩\n", binders(164), ex.lets_text(), parts[0], parts[1], parts[2], parts[3], bs.join(", "));
+            let _ = write!(t, "theorem fromCheckpoint{k}_eq{} (h : {hyp}) :\n    P.fromCheckpoint {big} = fromCheckpoint{k} {} := by\n  have e : P.fromCheckpoint {big} = ⟨⟨P.v4OfBytes {big}, P.v4OfBytes (List.drop 32 {big}), P.v4OfBytes (List.drop 64 {big}), P.v4OfBytes (List.drop 96 {big})⟩, (Pkt.default.fill (((List.drop 128 {big}).take 32).take ({lhs_min}))).1⟩ := rfl\n  rw [e, h]; rfl\n", binders(164), bvars(164).join(" "));
         }
         Ok((d, t))
     })());
